@@ -85,7 +85,7 @@ MInit(start) ==
   /\ ret = NoRet /\ fr = <<Fr(0)>> /\ memo = <<>> /\ seeds = <<>> /\ nmiss = 0 /\ done = FALSE /\ steps = 0
 
 \* ---------------------------------------------------------------- leaves
-LeafOps == {"tok", "pat", "opat", "dot", "const", "oconst", "constbad", "void", "fail", "eof", "cut", "emptyclosure", "meta"}
+LeafOps == {"tok", "pat", "opat", "dot", "const", "oconst", "constbad", "void", "fail", "eof", "eol", "cut", "emptyclosure", "meta"}
 \* `cv` (trace mode): the evaluated value of a string constant ("oconst": interpolation / evaluation is C17's subject, not modelled
 \* here) is taken from the recorded "const" event
 NoCv == [ok |-> FALSE, v |-> None]
@@ -113,6 +113,9 @@ LeafW(cv) ==
        [] e.op = "void" -> fr' = Goto(fr, p) /\ ret' = RetOK(Unit) /\ memo' = memo
        [] e.op = "fail" -> fr' = Goto(fr, p) /\ ret' = RetKO /\ memo' = memo
        [] e.op = "eof" -> fr' = Goto(fr, p) /\ ret' = (IF p = N THEN RetOK(None) ELSE RetKO) /\ memo' = memo
+       [] e.op = "eol" -> LET q == Cfg.eol[p0 + 1] IN          \* eolcheck(): no next_token, nothing appended, position restored on failure
+                          IF q < 0 THEN fr' = fr /\ ret' = RetKO /\ memo' = memo
+                          ELSE fr' = Goto(fr, q) /\ ret' = RetOK(None) /\ memo' = memo
        [] e.op = "emptyclosure" -> fr' = AppendNode(fr, ClosedL(<<>>)) /\ ret' = RetOK(ClosedL(<<>>)) /\ memo' = memo
        [] e.op = "cut" -> /\ fr' = SetCut(fr) /\ ret' = RetOK(None)
                           \* prune_memos_on_cut: entries before the cut position can never be asked for again; guards are kept
